@@ -76,3 +76,97 @@ def max_degree(t, degs):
     return best[0]
 
 
+
+
+# ---------------------------------------------------------------------------------------------------
+# growth orders in several gradings (data scale, sample size) and their Pareto frontier
+
+def _name_order(name, grading):
+    """order of growth of a state symbol: grading 'data' (x -> c*x) or 'count' (n -> c*n, sums grow with n)"""
+    base = name.rstrip('ab_xy')
+    if grading == 'data':
+        if base.startswith('S2') or base.startswith('v'):
+            return Fraction(2)
+        if base.startswith('S1') or base.startswith('m'):
+            return Fraction(1)
+        return Fraction(0)
+    if base.startswith('S1') or base.startswith('S2') or base in ('n',) or base.startswith('n'):
+        return Fraction(1)
+    return Fraction(0)
+
+
+def growth_points(t, recognise=None, gradings=('data', 'count')):
+    """{(order per grading)} over all subterms of t (upper growth bounds: sums take the max, products add).
+    `recognise(u)` may return a symbol to stand for a subterm (a statistic the code recomputes from the sums).
+    The arguments of a quantile call are not part of the value's magnitude; the degrees-of-freedom term inside a
+    Student-t quantile is analysed as a root of its own."""
+    pts = set()
+    memo = {}
+
+    def go(u):
+        if u in memo:
+            return memo[u]
+        r0 = recognise(u) if recognise is not None and u[0] in ('op',) else None
+        if r0 is not None:
+            u2 = r0
+        else:
+            u2 = u
+        k = u2[0]
+        zero = tuple(Fraction(0) for _ in gradings)
+        if k in ('int', 'flt', 'bool', 'str', 'unit'):
+            r = zero
+        elif k == 'sym':
+            r = tuple(_name_order(u2[1], g) for g in gradings)
+        elif k == 'call':
+            if u2[1] == 'inverse_cdf':
+                dist = u2[2][0]
+                if dist[0] == 'adt':
+                    for f in dist[3]:
+                        go(f)
+            r = zero
+        elif k == 'adt':
+            for f in u2[3]:
+                go(f)
+            r = zero
+        elif k == 'op':
+            n, a = u2[1], u2[2]
+            if n in ('zero', 'one', 'epsilon'):
+                r = zero
+            elif n in ('i2f', 'f2f', 'neg', 'abs', 'f2i', 'i2i', 'ref', 'floor', 'round', 'ceil', 'trunc'):
+                r = go(a[0])
+            elif n == 'mul':
+                x, y = go(a[0]), go(a[1])
+                r = tuple(p + q for p, q in zip(x, y))
+            elif n == 'div':
+                x, y = go(a[0]), go(a[1])
+                r = tuple(p - q for p, q in zip(x, y))
+            elif n in ('add', 'sub', 'fmin', 'fmax', 'min', 'max'):
+                x, y = go(a[0]), go(a[1])
+                r = tuple(max(p, q) for p, q in zip(x, y))
+            elif n == 'sqrt':
+                r = tuple(p / 2 for p in go(a[0]))
+            elif n == 'powi' and a[1][0] == 'int':
+                r = tuple(p * a[1][1] for p in go(a[0]))
+            elif n in ('exp',):
+                go(a[0])
+                r = tuple(Fraction(1) if g == 'data' else Fraction(0) for g in gradings)
+            elif n in ('ln',):
+                go(a[0])
+                r = zero
+            else:
+                for x in a:
+                    if isinstance(x, tuple) and x and x[0] in ('op', 'sym', 'call', 'adt', 'int', 'flt'):
+                        go(x)
+                r = zero
+        else:
+            r = zero
+        memo[u] = r
+        pts.add(r)
+        return r
+    go(t)
+    return pts
+
+
+def undominated(code_pts, ref_pts):
+    """points of the code that no point of the reference dominates component-wise"""
+    return sorted(p for p in code_pts if not any(all(q[i] >= p[i] for i in range(len(p))) for q in ref_pts))
